@@ -213,7 +213,7 @@ def body_sheets(ctx, case):
         name2 = prefix + ALPHABET[ctx.choice("c3", len(ALPHABET))] + c2 + case.get("tail", "")
     else:
         name2 = name1[:31] + " (2)"
-    names = [name1, name2, name1, name2][:case.get("count", 3)]
+    names = ([name1, name2, name1, name2] * 4)[:case.get("count", 3)]
     used = set()
     out = [ex._unique_sheet_name(nm, used) for nm in names]
     ctx.require(len(set(out)) == len(out), "sheet names are unique")
@@ -229,6 +229,7 @@ def body_sheets(ctx, case):
 def cases_sheets(tier, seed):
     out = [{"prefix": L} for L in ((0, 26, 29, 31) if tier == "quick" else (0, 1, 25, 26, 27, 28, 29, 30, 31, 33))]
     out += [{"prefix": 27, "tail": " - Direct Integration (Real)", "count": 4}]
+    out += [{"prefix": 29, "count": 12}, {"prefix": 26, "count": 14}]      # ten and more clashing names: two-digit suffixes
     return out
 
 
@@ -249,7 +250,7 @@ FAMILIES = [
            assumptions=["the service is replaced by a stub that returns a token naming its input (the wrapper's own logic is the subject)"],
            shim_modules=["OpenPinch.classes.stream"], split_paths=100, validate_every=5, reach=["op:target", "op:export", "op:loadB"]),
     Family(name="sheet_names", cases=cases_sheets, body=body_sheets, functions=["_unique_sheet_name", "_sanitize_sheet_name"], files=FILES[2:3],
-           bounds="3-4 names per workbook: concrete prefix of 0..33 characters around the 31-character cut followed by two symbolic characters from a 13-symbol alphabet "
+           bounds="3-14 names per workbook (up to 14 clashing ones, so two-digit ' (n)' suffixes occur): concrete prefix of 0..33 characters around the 31-character cut followed by two symbolic characters from a 13-symbol alphabet "
                   "(all seven forbidden characters, space, apostrophe, parentheses, digit, letter); the second name equal to the first, differing in one symbolic character, or equal to the "
                   "first name's own ' (2)' alternative",
            assumptions=["characters are finite-domain symbolic (alphabet of 13), not unbounded strings"], shim_modules=["OpenPinch.classes.stream"],
